@@ -303,6 +303,23 @@ def fanout(w=2, n=5):
 
 
 @design
+def repeat_args(w=2):
+    """nets that read one wire in several argument positions (adjacent and not), all reads of a wire
+    inside ONE net, duplicated sub-expressions whose consumers repeat an argument"""
+    a, b, s = _io([w, w, 1])
+    _out(pyrtl.concat(a, a, a, a), 'out0')
+    _out(pyrtl.concat(a, b, a), 'out1')
+    _out(pyrtl.select(s, s, s), 'out2')
+    t1 = a ^ b
+    t2 = a ^ b
+    _out(t1 + t1, 'out3')
+    _out(pyrtl.concat(t2, t2) ^ pyrtl.concat(b, b), 'out4')
+    _out((b * b)[:w], 'out5')
+    x = ~b
+    _out(pyrtl.concat(x, b, x), 'out6')
+
+
+@design
 def wire_chain(w=3):
     a, = _io([w])
     t = pyrtl.WireVector(w, 't1')
@@ -439,6 +456,8 @@ def family(tier='quick', seed=0):
     add('shared_subexp', w=3)
     add('fanout', w=2, n=5)
     add('wire_chain', w=3)
+    add('repeat_args', w=2)
+    add('repeat_args', w=1)
     add('mixed_alu', w=3)
     n_rand = 12 if tier == 'quick' else 60
     for s in range(n_rand):
